@@ -1,11 +1,11 @@
 (** END TO END (Model/EndToEnd.v): the capstone composition theorems, from the cells of the workbook and the sections of the
     configuration to the exit status and the reports.
 
-    1. [front_end_of] is [ConfigModel.front_end]; the file-name view of [rp2_model] is [front_end] itself.
+    1. (Proofs/EndToEndFront.v) [front_end_of] is [ConfigModel.front_end]; the file-name view of [rp2_model] is [front_end] itself.
     2. REJECTION, one lemma per cause: invalid configuration / failing option check / a sheet the parser rejects (chained from
-       [no_report_on_rejection], C12); InputData or the matcher rejects an asset, in particular exhausted lots; the compute
-       stage rejects an asset, in particular an overdraft without -n ([compute_tax_outcome], C16 / C08).  Always: non-zero
-       exit status and NO report.
+       [no_report_on_rejection], C12; Proofs/EndToEndFront.v); InputData or the matcher rejects an asset, in particular exhausted
+       lots; the compute stage rejects an asset, in particular an overdraft without -n ([compute_tax_outcome], C16 / C08).
+       Always: non-zero exit status and NO report.
     3. the front half on rendered sheets: parsing every rendered sheet yields [expected_all] ([parse_render], C11), hence the
        SEAM equation  rp2_model ... = back_end ... (expected_all ...).
     4. from the typed rows of a sheet to a [built_history]: without crypto-fee acquisitions the parsed transactions are the
@@ -17,82 +17,14 @@ From Coq Require Import List ZArith Bool Lia Permutation Sorted.
 From RP2V Require Import Base.Prelude Base.Time Base.Dec Base.Sorting Base.Assoc Model.Types Model.Generated Model.Txn
   Model.Matcher Model.MatchSpec Model.Pipeline Model.Parser Model.Render Model.TableOrderSpec Model.Computed Model.ComputedSpec
   Model.TotalSpec Model.FromRowsSpec Model.Grid Model.ReportInput Model.MainRun Model.RunCompose Model.ConfigModel Model.EndToEnd.
-From RP2V Require Import Proofs.SortingProofs Proofs.BalanceProofs Proofs.C09Proofs Proofs.C17Proofs Proofs.PipelineWf
+From RP2V Require Import Proofs.EndToEndFront Proofs.SortingProofs Proofs.BalanceProofs Proofs.C09Proofs Proofs.C17Proofs Proofs.PipelineWf
   Proofs.ParserLookup Proofs.ParserRows Proofs.ParserSheet Proofs.ParserSpec Proofs.FaultsCtor Proofs.FaultsConfig
   Proofs.TableOrder Proofs.FromRows Proofs.ComputeTotal Proofs.RunLemmas Proofs.C16Proofs Proofs.RunCompose Proofs.RunComposeTotal.
 Import ListNotations.
 Open Scope Z_scope.
 
-(** * 1. the front end *)
-Lemma front_end_of_str c o secs ts workbook back :
-  @front_end_of str c o secs ts workbook back = front_end c o secs ts workbook back.
-Proof. reflexivity. Qed.
-
-Lemma front_end_of_map {X Y} (f : X -> Y) c o secs ts workbook (back : list (str * parsed) -> Z * list X) :
-  front_end_of c o secs ts workbook (fun ps => (fst (back ps), map f (snd (back ps)))) =
-  (fst (front_end_of c o secs ts workbook back), map f (snd (front_end_of c o secs ts workbook back))).
-Proof.
-  unfold front_end_of. destruct (options_check c o (validate_config secs)) as [code assets].
-  destruct (negb (code =? 0)); [reflexivity|].
-  destruct (validate_config secs) as [s|]; [|reflexivity].
-  destruct (parse_all (pcfg_of s ts) assets workbook 0); reflexivity.
-Qed.
-
-(** the file-name view is the image of the run *)
-Theorem rp2_model_files c o secs ts workbook v envp :
-  exists f, rp2_files c o secs ts workbook v envp =
-            (fst (rp2_model c o secs ts workbook v envp), map f (snd (rp2_model c o secs ts workbook v envp))).
-Proof.
-  unfold rp2_files, rp2_model. rewrite <- front_end_of_str.
-  destruct (validate_config secs) as [s|e] eqn:V.
-  - exists (report_file c o s).
-    exact (front_end_of_map (report_file c o s) c (l1_options o) secs ts workbook (fun ps => back_end c o v envp s ps)).
-  - exists (fun _ => []).
-    exact (front_end_of_map (fun _ : gen_id * list sheetw => ([] : str)) c (l1_options o) secs ts workbook (fun _ => (1, []))).
-Qed.
-
-(** * 2. rejection *)
-(** ** 2.1 the three causes of the front end, chained from C12 [no_report_on_rejection] through the file-name view *)
-Theorem e2e_front_rejection c o secs ts workbook v envp :
-  fst (options_check c (l1_options o) (validate_config secs)) <> 0 \/
-  is_err (validate_config secs) \/
-  (exists s, validate_config secs = Ok s /\
-             is_err (parse_all (pcfg_of s ts) (snd (options_check c (l1_options o) (validate_config secs))) workbook 0)) ->
-  fst (rp2_model c o secs ts workbook v envp) <> 0 /\ snd (rp2_model c o secs ts workbook v envp) = [].
-Proof.
-  intros H. destruct (rp2_model_files c o secs ts workbook v envp) as (f & E).
-  assert (HH : fst (rp2_files c o secs ts workbook v envp) <> 0 /\ snd (rp2_files c o secs ts workbook v envp) = [])
-    by (exact (no_report_on_rejection c (l1_options o) secs ts workbook _ H)).
-  destruct HH as [H1 H2]. rewrite E in H1, H2. cbn [fst snd] in H1, H2.
-  split; [exact H1|]. exact (map_eq_nil _ _ H2).
-Qed.
-
-Corollary e2e_invalid_config c o secs ts workbook v envp :
-  is_err (validate_config secs) ->
-  fst (rp2_model c o secs ts workbook v envp) <> 0 /\ snd (rp2_model c o secs ts workbook v envp) = [].
-Proof. intros H. apply e2e_front_rejection. right. left. exact H. Qed.
-
-Corollary e2e_option_check_fails c o secs ts workbook v envp :
-  fst (options_check c (l1_options o) (validate_config secs)) <> 0 ->
-  fst (rp2_model c o secs ts workbook v envp) <> 0 /\ snd (rp2_model c o secs ts workbook v envp) = [].
-Proof. intros H. apply e2e_front_rejection. left. exact H. Qed.
-
-(** the sheet of ANY processed asset (after any accepted ones) is missing or rejected by the parser *)
-Corollary e2e_sheet_rejected c o secs ts workbook v envp s pre a post ps :
-  validate_config secs = Ok s ->
-  snd (options_check c (l1_options o) (Ok s)) = pre ++ a :: post ->
-  parse_all (pcfg_of s ts) pre workbook 0 = Ok ps ->
-  (match workbook a with
-   | None => True
-   | Some rows => is_err (parse_sheet (pcfg_of s ts) a (match rev ps with [] => 0 | (_, p) :: _ => pa_counter p end) rows)
-   end) ->
-  fst (rp2_model c o secs ts workbook v envp) <> 0 /\ snd (rp2_model c o secs ts workbook v envp) = [].
-Proof.
-  intros V A P H. apply e2e_front_rejection. right. right. exists s. split; [exact V|].
-  rewrite V, A. exact (parse_all_err (pcfg_of s ts) pre a post workbook 0 ps P H).
-Qed.
-
-(** ** 2.2 helpers: lists, sorting by name, the validated configuration *)
+(** * 2. rejection behind the front end
+    ** 2.2 helpers: lists, sorting by name, the validated configuration *)
 Lemma map_result_err_in {A B} (f : A -> result B) : forall l x, In x l -> is_err (f x) -> is_err (map_result f l).
 Proof.
   induction l as [|a l IH]; intros x Hx He; [destruct Hx|]. cbn [map_result].
@@ -767,4 +699,81 @@ Proof.
   { rewrite RUN. f_equal. rewrite <- DL, map_map. apply map_ext. intros gs. unfold report_file. rewrite Hs, Hl. reflexivity. }
   apply Forall2_flip in F2. cbn [i rinput_of rp_assets rp_sched]. eapply Forall2_imp; [|exact F2].
   intros ra ap (A1 & A2 & A3 & A4 & A5 & _). repeat split; try assumption. exact (mh_match _ _ _ _ A5).
+Qed.
+
+(** ** 5.4 the back half for ANY accepted workbook (crypto-fee acquisitions included): once the front end has accepted
+    everything, the rinput is assembled and ComputedData exists for every asset, the reports come out.  With [e2e_seam] this is
+    the two-halves form of the end-to-end statement: cells -> [expected_all] -> rinput (seam), rinput -> reports (here). *)
+Definition front_accepts (c : country) (o : MainRun.options) (secs : list (str * list (str * str))) (ts : list (str * ts_res))
+  (workbook : str -> option (list (list cell))) (s : cstate) (assets : list str) (ps : list (str * parsed)) : Prop :=
+  validate_config secs = Ok s /\ options_check c (l1_options o) (Ok s) = (0, assets) /\
+  parse_all (pcfg_of s ts) assets workbook 0 = Ok ps.
+
+Theorem e2e_success_of_computed c o secs ts workbook v envp s assets ps i :
+  front_accepts c o secs ts workbook s assets ps ->
+  supported c o -> (o_method o = None \/ cs_methods s = []) ->
+  Forall (fun e => str_in (snd e) method_plugins = true) (cs_methods s) ->
+  e2e_input c o envp s ps = Some i -> (exists cs, computed_all i (rp_assets i) = Ok cs) -> reports_ok_hyps v i ->
+  exists l, rp2_model c o secs ts workbook v envp = (0, l) /\ map fst l = discovery c /\
+            (forall g sheets, In (g, sheets) l -> run_gen v i g = inl sheets /\ within_capacity g sheets) /\
+            MainRun.run c o (l6_config s) (inp_of_rinput i) = (0, map (report_file c o s) l).
+Proof.
+  intros (V & O & P) SUP H1 HF HI (cs & HC) RH.
+  destruct (options_check_passed _ _ _ _ O) as [EA _].
+  assert (M : run_matches c o (l6_config s) i).
+  { apply (e2e_run_matches c o envp s ps i HI); [rewrite (parse_all_names _ _ _ _ _ P); exact EA|].
+    apply run_assets_distinct. exact (valid_config_assets_distinct _ _ V). }
+  destruct (run_total_composed c o (l6_config s) v i cs SUP M H1 HF HC RH) as (RUN & l & RR & DL & FN).
+  destruct (schedule_ok c o (l6_config s) H1) as (names & Hs & _ & Hl & _).
+  exists l. split.
+  { rewrite (rp2_model_back _ _ _ _ _ _ _ _ _ _ V O P). unfold back_end. rewrite HI. unfold reports_of. rewrite RR, RUN. reflexivity. }
+  split; [exact DL|]. split.
+  { destruct (run_reports_total v i cs HC RH) as (l' & RR' & _ & Hg). rewrite (rm_country _ _ _ _ M) in RR'.
+    rewrite RR in RR'. injection RR' as <-. intros g sh Hin. pose proof (Hg g sh Hin) as G. split; [exact G|exact (run_gen_within_capacity v i g sh G)]. }
+  rewrite RUN. f_equal. rewrite <- DL, map_map. apply map_ext. intros gs. unfold report_file. rewrite Hs, Hl. reflexivity.
+Qed.
+
+(** * 6. REJECTION, collected: each cause is its own disjunct *)
+(** the configuration file is rejected *)
+Definition cause_config (secs : list (str * list (str * str))) : Prop := is_err (validate_config secs).
+(** an option check fails (-m not a choice of the country: exit 2; from > to, -m together with [accounting_methods], an unknown
+    method in the configuration, -a not a configured asset: exit 1) *)
+Definition cause_options (c : country) (o : MainRun.options) (secs : list (str * list (str * str))) : Prop :=
+  fst (options_check c (l1_options o) (validate_config secs)) <> 0.
+(** the sheet of some processed asset, after any number of accepted ones, is missing or rejected by the parser *)
+Definition cause_sheet (c : country) (o : MainRun.options) (secs : list (str * list (str * str))) (ts : list (str * ts_res))
+  (workbook : str -> option (list (list cell))) : Prop :=
+  exists s pre a post ps,
+    validate_config secs = Ok s /\ snd (options_check c (l1_options o) (Ok s)) = pre ++ a :: post /\
+    parse_all (pcfg_of s ts) pre workbook 0 = Ok ps /\
+    match workbook a with
+    | None => True
+    | Some rows => is_err (parse_sheet (pcfg_of s ts) a (match rev ps with [] => 0 | (_, p) :: _ => pa_counter p end) rows)
+    end.
+(** the front end accepts everything, and for some asset (its transactions a history built from rows) the lots run out *)
+Definition cause_lots_exhausted (c : country) (o : MainRun.options) (secs : list (str * list (str * str))) (ts : list (str * ts_res))
+  (workbook : str -> option (list (list cell))) : Prop :=
+  exists s assets ps sched a p h t evs,
+    front_accepts c o secs ts workbook s assets ps /\ e2e_sched c o s = Some sched /\ In (a, p) ps /\ txs_of_parsed p = Ok t /\
+    built_history sched h t /\ taxable_events t = Ok evs /\ lots_exhausted t evs.
+(** ... or some account of some asset is overdrawn up to the to-date, and -n is not given *)
+Definition cause_overdraft (c : country) (o : MainRun.options) (secs : list (str * list (str * str))) (ts : list (str * ts_res))
+  (workbook : str -> option (list (list cell))) : Prop :=
+  exists s assets ps sched a p h t evs,
+    front_accepts c o secs ts workbook s assets ps /\ e2e_sched c o s = Some sched /\ In (a, p) ps /\ txs_of_parsed p = Ok t /\
+    built_history sched h t /\ taxable_events t = Ok evs /\ holders_ok t /\ o_neg o = false /\ some_overdraft (o_to o) t.
+
+Theorem e2e_rejection c o secs ts workbook v envp :
+  cause_config secs \/ cause_options c o secs \/ cause_sheet c o secs ts workbook \/
+  cause_lots_exhausted c o secs ts workbook \/ cause_overdraft c o secs ts workbook ->
+  fst (rp2_model c o secs ts workbook v envp) <> 0 /\ snd (rp2_model c o secs ts workbook v envp) = [].
+Proof.
+  intros [H|[H|[H|[H|H]]]].
+  - exact (e2e_invalid_config c o secs ts workbook v envp H).
+  - exact (e2e_option_check_fails c o secs ts workbook v envp H).
+  - destruct H as (s & pre & a & post & ps & V & A & P & H). exact (e2e_sheet_rejected c o secs ts workbook v envp s pre a post ps V A P H).
+  - destruct H as (s & assets & ps & sched & a & p & h & t & evs & (V & O & P) & S & Hin & HT & BH & HE & Hex).
+    exact (e2e_lots_exhausted c o secs ts workbook v envp s assets ps V O P sched a p h t evs S Hin HT BH HE Hex).
+  - destruct H as (s & assets & ps & sched & a & p & h & t & evs & (V & O & P) & S & Hin & HT & BH & HE & Hok & Hn & Hov).
+    exact (e2e_overdrawn c o secs ts workbook v envp s assets ps V O P sched a p h t evs S Hin HT BH HE Hok Hn Hov).
 Qed.
